@@ -38,7 +38,7 @@ def gen_tree(rng, depth, want="any"):
     if t == "list":
         return {"t": "list", "items": [gen_tree(rng, depth - 1) for _ in range(rng.randint(0, 3))]}
     if t == "dict":
-        ks = rng.sample(range(6), rng.randint(0, 3))
+        ks = sorted(rng.sample(range(6), rng.randint(0, 3)))   # jax's pytree copy sorts dict keys: keep them sorted
         return {"t": "dict", "entries": [[f"k{k}", gen_tree(rng, depth - 1)] for k in ks]}
     c = rng.choice(["A", "B"])
     return {"t": "class", "cls": c, "fields": [[f, gen_tree(rng, depth - 1)] for f in FIELDS[c]]}
@@ -81,7 +81,7 @@ def gen_path(rng, root):
         bad = rng.choice([("attr", "nope"), ("idx", 7), ("idx", -9), ("key", "k9"), ("attr", "x"), ("idx", 0), ("key", "k0")])
         pos = rng.randint(0, len(ops))
         ops = ops[:pos] + [bad] + (ops[pos + 1:] if rng.random() < 0.5 else [])
-        if bad == ("attr", "nope"):
+        if bad[0] == "attr":
             create = False                          # attribute creation is outside the model
     rng_neg = None
     return ops, create
@@ -117,7 +117,7 @@ def strip(s):
     if s["t"] == "list":
         return ("list", tuple(strip(v) for v in s["items"]))
     if s["t"] == "dict":
-        return ("dict", tuple((k, strip(v)) for k, v in s["entries"]))
+        return ("dict", tuple(sorted((k, strip(v)) for k, v in s["entries"])))   # dict equality ignores order
     if s["t"] == "leaf":
         return ("leaf", s["v"])
     return ("other", s.get("repr"))
@@ -152,7 +152,7 @@ def ref_update(node, ops, val, create):
     if a not in es:
         if rest or not create:
             raise Bad("missing key")
-        return ("dict", node[1] + ((a, val),))
+        return ("dict", tuple(sorted(node[1] + ((a, val),))))
     new = val if not rest else ref_update(es[a], rest, val, create)
     return ("dict", tuple((kk, new if kk == a else vv) for kk, vv in node[1]))
 
